@@ -90,6 +90,31 @@ def extract(tree):
     # ---- shape of compare's cross-type rule
     b = csrc.func_body(value, "janet_compare")
     _need(re.search(r"if\s*\(\s*tx\s*!=\s*ty\s*\)\s*return\s+tx\s*<\s*ty\s*\?\s*-1\s*:\s*1\s*;", b), "janet_compare cross-type rule")
+    # ---- symcache.c: the two constants written into vacated slots, thresholds
+    sym = csrc.strip_comments(csrc.read(tree, "src/core/symcache.c"))
+    b = csrc.func_body(sym, "janet_symcache_findmem")
+    _need(re.search(r"index\s*=\s*\(uint32_t\)\s*hash\s*&\s*\(janet_vm\.cache_capacity\s*-\s*1\)\s*;", b), "findmem home index")
+    _need(re.search(r"if\s*\(\s*NULL\s*==\s*test\s*\)\s*\{\s*if\s*\(\s*NULL\s*==\s*firstEmpty\s*\)\s*firstEmpty\s*=\s*janet_vm\.cache\s*\+\s*i\s*;\s*goto\s+notfound\s*;", b), "findmem empty-slot branch")
+    _need(re.search(r"if\s*\(\s*JANET_SYMCACHE_DELETED\s*==\s*test\s*\)\s*\{\s*if\s*\(\s*firstEmpty\s*==\s*NULL\s*\)\s*firstEmpty\s*=\s*janet_vm\.cache\s*\+\s*i\s*;\s*continue\s*;", b), "findmem tombstone branch")
+    m = _need(re.search(r"if\s*\(\s*firstEmpty\s*!=\s*NULL\s*\)\s*\{\s*\*firstEmpty\s*=\s*test\s*;\s*janet_vm\.cache\[i\]\s*=\s*(\w+)\s*;\s*return\s+firstEmpty\s*;\s*\}\s*return\s+janet_vm\.cache\s*\+\s*i\s*;", b),
+              "findmem move-into-first-tombstone branch")
+    sc = {}
+    if m.group(1) not in ("JANET_SYMCACHE_DELETED", "NULL"):
+        raise ExtractError("findmem: vacated slot set to %s" % m.group(1))
+    sc["symMoveVacatedDeleted"] = m.group(1) == "JANET_SYMCACHE_DELETED"
+    b = csrc.func_body(sym, "janet_symbol_deinit")
+    m = _need(re.search(r"if\s*\(\s*status\s*\)\s*\{\s*janet_vm\.cache_count--\s*;\s*janet_vm\.cache_deleted\+\+\s*;\s*\*bucket\s*=\s*(\w+)\s*;", b), "janet_symbol_deinit body")
+    if m.group(1) not in ("JANET_SYMCACHE_DELETED", "NULL"):
+        raise ExtractError("janet_symbol_deinit: slot set to %s" % m.group(1))
+    sc["symDeinitWritesDeleted"] = m.group(1) == "JANET_SYMCACHE_DELETED"
+    b = csrc.func_body(sym, "janet_symcache_put")
+    _need(re.search(r"if\s*\(\s*\(janet_vm\.cache_count\s*\+\s*janet_vm\.cache_deleted\)\s*\*\s*2\s*>\s*janet_vm\.cache_capacity\s*\)\s*\{\s*int\s+status\s*;\s*"
+                    r"janet_cache_resize\s*\(\s*janet_tablen\s*\(\s*\(\s*2\s*\*\s*janet_vm\.cache_count\s*\+\s*1\s*\)\s*\)\s*\)\s*;\s*bucket\s*=\s*janet_symcache_find\s*\(\s*x\s*,\s*&status\s*\)\s*;\s*\}\s*"
+                    r"janet_vm\.cache_count\+\+\s*;\s*\*bucket\s*=\s*x\s*;", b), "janet_symcache_put body")
+    b = csrc.func_body(sym, "janet_symcache_init")
+    m = _need(re.search(r"janet_vm\.cache_capacity\s*=\s*(\d+)\s*;", b), "janet_symcache_init capacity")
+    sc["symCacheInitCap"] = int(m.group(1))
+    c["_sym"] = sc
     return c, {k: ty[k] for k in want}
 
 
@@ -98,6 +123,7 @@ def render(tree):
     out = [csrc.lean_header("src/core/value.c, util.c, struct.c, include/janet.h"), "namespace JanetModel.Gen.Value\n"]
     out.append("/-- constants read off janet_hash_mix, janet_string_calchash, janet_array_calchash, janet_kv_calchash (util.c),")
     out.append("    janet_hash, murmur64 (value.c), janet_struct_end (struct.c) -/")
+    sc = c.pop("_sym")
     for k, v in c.items():
         if k == "tablenShifts":
             out.append("abbrev tablenShifts : List Nat := [%s]" % ", ".join(str(x) for x in v))
@@ -106,5 +132,10 @@ def render(tree):
     out.append("\n/-- JanetType enum order (janet.h); janet_compare orders values of different types by it -/")
     for k, v in ty.items():
         out.append("abbrev ty%s : Nat := %d" % (k[6:].capitalize(), v))
+    out.append("\n/-- symcache.c: what janet_symcache_findmem writes into the slot it vacates when it moves a live symbol into an earlier")
+    out.append("    tombstone, what janet_symbol_deinit writes (true = JANET_SYMCACHE_DELETED, false = NULL), initial capacity -/")
+    out.append("abbrev symMoveVacatedDeleted : Bool := %s" % ("true" if sc["symMoveVacatedDeleted"] else "false"))
+    out.append("abbrev symDeinitWritesDeleted : Bool := %s" % ("true" if sc["symDeinitWritesDeleted"] else "false"))
+    out.append("abbrev symCacheInitCap : Nat := %d" % sc["symCacheInitCap"])
     out.append("\nend JanetModel.Gen.Value\n")
     return "\n".join(out)
